@@ -108,7 +108,7 @@ def run_scenario(sc, base, repo, harness):
         return dict(workdir=str(ws), xpname=r["xpname"], ctl=str(ctl), sid=r["sid"], run=r["run"],
                     result=str(wd / f"res.{r['sid']}.{r['run']}.json"),
                     workload=r.get("workload") or dict(kind=sc["kind"], tags=sc["tags"]),
-                    trace=r.get("trace", True), kill=r.get("kill"), barrier=r.get("barrier"), post_delay=r.get("post_delay"), pause=r.get("pause"), maxlife=sc.get("timeout", 60) + 10,
+                    trace=r.get("trace", True), kill=r.get("kill"), barrier=r.get("barrier"), post_delay=r.get("post_delay"), pause=r.get("pause"), debuglog=(str(wd / f"debug.{r['sid']}.{r['run']}.log") if r.get("debug") else None), maxlife=sc.get("timeout", 60) + 10,
                     maxwait=r.get("maxwait", sc.get("timeout", 60)), pythonpath=pythonpath)
 
     def launch(r, wait=False):
@@ -206,6 +206,14 @@ def run_scenario(sc, base, repo, harness):
                 pass
         elif "write" in a:
             (ctl / a["write"][0]).write_text(a["write"][1])
+        elif "signal_log" in a:
+            # send a signal to every process whose pid matches group 1 of the pattern in the log
+            pat, sig = a["signal_log"]
+            for m in re.finditer(pat, log_text(), re.M):
+                try:
+                    os.kill(int(m.group(1)), getattr(signal, "SIG" + sig))
+                except OSError:
+                    pass
 
     script = sc["script"]
     timed_out = False
@@ -230,10 +238,19 @@ def run_scenario(sc, base, repo, harness):
     except OSError:
         out["quiet_s"] = None
     out["alive_at_end"] = [f"{k[0]}.{k[1]}" for k, p in procs.items() if p.poll() is None]
+    _t = log_text()
+    out["jobs_alive_at_end"] = [x for x in sorted({int(m.group(1)) for m in re.finditer(r"^begin \d+ (\d+)", _t, re.M)} |
+                                                  {int(m.group(1)) for m in re.finditer(r"pid=(\d+)", _t)}) if pid_alive(x)]
+    out["latch_open"] = (ctl / "latch.all").exists()
     out["unfired"] = [i for i, e in enumerate(script) if i not in fired and not e.get("optional")]
     # let everything that is still there finish, then make sure nothing survives the scenario
     (ctl / "latch.all").touch()
     text = log_text()
+    for m in re.finditer(r"FROZEN (\d+)", text):
+        try:
+            os.kill(int(m.group(1)), signal.SIGCONT)
+        except OSError:
+            pass
     jobpids = sorted({int(m.group(1)) for m in re.finditer(r"^begin \d+ (\d+)", text, re.M)} |
                      {int(m.group(1)) for m in re.finditer(r"pid=(\d+)", text)})
     t1 = time.time()
@@ -277,6 +294,7 @@ def run_scenario(sc, base, repo, harness):
         else:
             out["results"][f"{k[0]}.{k[1]}"] = None
     out["snapshot"] = snapshot(ws, sc["tags"], {j["tag"]: j["path"] for j in out.get("pre_paths", [])})
+    out["token_files"] = sorted(str(p.relative_to(wd)) for p in (wd / "xpmhome").glob("tokens/*/*.token"))
     out["stderr"] = {}
     for k in procs:
         f = wd / f"err.{k[0]}.{k[1]}.txt"
